@@ -16,7 +16,7 @@ RULE = ('states = quaternions of the alphabet (group elements, lattice non-unit 
 ASSUMPTIONS = ['integer lattice (entries in [-2,2]) non-unit quaternions make the non-unit laws exact in floating point',
                'tolerance 1e-12 absolute on unit operands, 1e-12 relative to the product of norms on non-unit operands',
                'scalar-last vs scalar-first objects are built from the same four numbers in the two orders; normalisation sums in a different order, hence 1e-15 on components and 1e-14 on derived matrices and products rather than bit equality (observed 1.1e-15 on menu entry 2)', 'scalar-last objects are multiplied with Hamilton-ordered right operands, as Quaternion.product documents']
-REQUIRED_CLASSES = ['triples', 'pairs:nonunit', 'inverse:unit', 'inverse:nonunit', 'order:S', 'object-history']
+REQUIRED_CLASSES = ['triples', 'pairs:nonunit', 'inverse:unit', 'inverse:nonunit', 'order:S', 'object-history', 'ownership']
 TOL = 1e-12
 
 
@@ -247,6 +247,12 @@ def _observe(Q, r):
             out[op] = _apply(Q, op, r).tolist()
     if Q.is_versor():
         out['dcm'] = np.asarray(Q.to_DCM()).tolist()
+    # the object consumed as a plain array / as the right-hand operand (these read the array buffer, not the accessors)
+    Quaternion, O = _lib()
+    out['array'] = np.asarray(Q, float).tolist()
+    out['right-operand'] = np.asarray(Quaternion(r.copy(), versor=False).product(Q)).tolist()
+    out['q_prod-right'] = np.asarray(O.q_prod(r.copy(), Q)).tolist()
+    out['q_prod-left'] = np.asarray(O.q_prod(Q, r.copy())).tolist()
     return out
 
 
@@ -286,6 +292,56 @@ def job_object_histories(ctx, k, depth):
     ctx.sample({'object_history': 'conj>norm>inv', 'start': [1.0, 2.0, -2.0, 4.0], 'ops': OPS})
 
 
+def job_ownership(ctx, k):
+    """Objects own their components: building an object never changes the caller's array, later changes of that array never reach the object,
+    and a second object built from the same array (whatever its options) leaves the first one as it was."""
+    Quaternion, O = _lib()
+    r = A.MENU[(k + 4) % 8]
+    vals = [np.array(v, float) for v in ([1, 2, -2, 4], [0, 3, 0, 4], [2, 0, 0, 0], [0.5, -1.5, 2.5, 1.0])] + [A.MENU[k] * 3.0, A.MENU[(k + 2) % 8].copy()]
+    for vi, v in enumerate(vals):
+        for cn in ('float64', 'matrix-row', 'strided', 'float32', 'int64', 'list'):
+            if cn == 'float64':
+                arr = v.copy()
+            elif cn == 'matrix-row':
+                M = np.tile(v, (3, 1)); arr = M[1]
+            elif cn == 'strided':
+                buf = np.zeros(8); buf[::2] = v; arr = buf[::2]
+            elif cn == 'float32':
+                arr = v.astype(np.float32)
+            elif cn == 'int64':
+                if not np.all(v == np.rint(v)):
+                    continue
+                arr = v.astype(np.int64)
+            else:
+                arr = [float(x) for x in v]
+            before = np.array(arr, float).copy()
+            for first_kw, second_kw in (({'versor': False}, {}), ({}, {'versor': False}), ({'versor': False}, {'versor': False}), ({}, {})):
+                key = f'q#{vi} container={cn} first={first_kw} second={second_kw}'
+                ctx.evals += 1
+                try:
+                    p = Quaternion(arr, **first_kw)
+                    snap = (np.asarray(p.A, float).copy(), np.asarray(p, float).copy(), np.asarray(p.product(r.copy())).copy())
+                    q = Quaternion(arr, **second_kw)
+                    after = (np.asarray(p.A, float).copy(), np.asarray(p, float).copy(), np.asarray(p.product(r.copy())).copy())
+                except Exception as ex:
+                    ctx.fail('building two objects from one array raises', key, repr(ex)[:160], 'two objects')
+                    continue
+                ctx.expect(np.array_equal(np.array(arr, float), before), "the caller's array is unchanged by the constructors", key, np.array(arr, float), before)
+                ctx.expect(all(np.array_equal(a_, b_) for a_, b_ in zip(snap, after)), 'a second object built from the same array leaves the first unchanged', key, after[0], snap[0])
+                exp_norm = 1.0 if first_kw == {} else float(np.linalg.norm(before))
+                ctx.close(np.linalg.norm(after[2]), exp_norm * 1.0, 1e-6 if cn == 'float32' else 1e-12, '|p r| = |p||r| for the first object after the second was built', key)
+                if cn != 'list':
+                    saved = np.array(arr).copy()
+                    arr[...] = 0
+                    arr[0] = 7
+                    ctx.expect(np.array_equal(np.asarray(p.A, float), snap[0]) and np.array_equal(np.asarray(p, float), snap[1]),
+                               "changing the caller's array afterwards does not reach the object", key, np.asarray(p, float), snap[1])
+                    arr[...] = saved
+                ctx.cls('ownership')
+                ctx.seen(('own', vi, cn, str(first_kw), str(second_kw)))
+    ctx.sample({'ownership': 'Quaternion(arr, versor=False) then Quaternion(arr)', 'arr': vals[0].tolist()})
+
+
 def run(ctx):
     ks = list(range(8)) if ctx.thorough else [A.seed_k(ctx.seed)]
     jobs = []
@@ -301,6 +357,7 @@ def run(ctx):
             jobs.append(('job_pairs', (k, lo, hi)))
         jobs.append(('job_inverse', (k,)))
         jobs.append(('job_order', (k,)))
+        jobs.append(('job_ownership', (k,)))
         jobs.append(('job_object_histories', (k, 4 if ctx.thorough else 3)))
     core.run_jobs(ctx, __name__, jobs)
     ctx.notes['menu_entries'] = ks
